@@ -530,19 +530,22 @@ func (c *candidateBase) Priority() uint32 {
 // transportAddressEqual checks if the transport address (IP, Port, NetworkType, TCPType) is equal to another
 // candidate.
 func (c *candidateBase) transportAddressEqual(other Candidate) bool {
-	if c.addr() != other.addr() {
-		if c.addr() == nil || other.addr() == nil {
-			return false
-		}
-		if !addrEqual(c.addr(), other.addr()) {
-			return false
-		}
+	if c.NetworkType() != other.NetworkType() || c.TCPType() != other.TCPType() {
+		return false
 	}
 
-	return c.NetworkType() == other.NetworkType() &&
-		c.Address() == other.Address() &&
-		c.Port() == other.Port() &&
-		c.TCPType() == other.TCPType()
+	if c.addr() != nil && other.addr() != nil {
+		// Both candidates are resolved: the resolved address decides. The textual
+		// Address() may differ for one transport address (IPv6 spelling, IPv4-in-IPv6,
+		// an mDNS name).
+		return c.addr() == other.addr() || addrEqual(c.addr(), other.addr())
+	}
+
+	if c.addr() != nil || other.addr() != nil {
+		return false
+	}
+
+	return c.Address() == other.Address() && c.Port() == other.Port()
 }
 
 // Equal is used to compare two candidateBases.
